@@ -489,6 +489,19 @@ func parseStops(csv *csv.File, inheritWheelchairBoarding bool) []Stop {
 		}
 		stops[i].Parent = &stops[parentStopIndex]
 	}
+	// The parent links must form a forest, otherwise Stop.Root never returns. If a stop is its
+	// own ancestor the link to its parent is dropped.
+	for i := range stops {
+		ancestor := stops[i].Parent
+		for n := 0; ancestor != nil && n <= len(stops); n++ {
+			if ancestor == &stops[i] {
+				log.Printf("Ignoring parent_station of stop %s because the stop is its own ancestor", stops[i].Id)
+				stops[i].Parent = nil
+				break
+			}
+			ancestor = ancestor.Parent
+		}
+	}
 
 	// Inherit wheelchair boarding from parent stops if specified.
 	if inheritWheelchairBoarding {
